@@ -51,6 +51,7 @@ pub(crate) fn mk<'a>(cfg: &'a Config, buf: [u8; B], geo: (usize, usize, usize, u
 /// Accessors for harness modules outside parser::stream (private fields are invisible there).
 pub(crate) fn x_geo(p: &Parser<'_>) -> (usize, usize, usize, usize, usize) { (p.parsed_start, p.gap_start, p.raw_start, p.free_start, p.buffer.len()) }
 pub(crate) fn x_byte(p: &Parser<'_>, i: usize) -> u8 { p.buffer[i] }
+pub(crate) fn x_raw(p: &Parser<'_>) -> (usize, usize) { (p.raw_start, p.free_start - p.raw_start) }
 pub(crate) fn x_rec(p: &Parser<'_>) -> (u16, u8) { (p.payload_rem, p.padding_rem) }
 pub(crate) fn x_out(p: &Parser<'_>) -> (usize, usize) { (p.output.len(), p.output_start) }
 /// 0 = Stream, 1 = Skip, 2 = Values
@@ -85,12 +86,13 @@ fn c02_compress() {
     let mut p = mk(&cfg, buf, g, State::Skip, any_role(), any_id(), None, kani::any(), kani::any(), Vec::new(), 0);
     p.compress();
     let (plen, rlen) = (g.1 - g.0, g.3 - g.2);
-    assert!(p.parsed_start == 0 && p.gap_start == plen, "parsed region not moved to the front");
-    assert!(p.raw_start == plen && p.free_start == plen + rlen, "raw region not adjacent to the parsed region (free space not maximal)");
+    assert!(geo_ok(&p), "representation invariant broken by compaction");
+    assert!(p.gap_start - p.parsed_start == plen && p.free_start - p.raw_start == rlen, "compaction changed the amount of parsed / raw data");
     let i: usize = kani::any();
-    if i < plen { assert!(p.buffer[i] == buf[g.0 + i], "stream byte changed by compaction"); }
-    if i < rlen { assert!(p.buffer[plen + i] == buf[g.2 + i], "raw byte changed by compaction"); }
-    assert!(p.input_buffer().len() == B - plen - rlen);
+    if i < plen { assert!(p.buffer[p.parsed_start + i] == buf[g.0 + i], "stream byte changed by compaction"); }
+    if i < rlen { assert!(p.buffer[p.raw_start + i] == buf[g.2 + i], "raw byte changed by compaction"); }
+    assert!(p.input_buffer().len() >= B - g.3, "compaction reduced the space for new input");
+    assert!(p.input_buffer().len() == B - plen - rlen, "compaction did not reclaim all gaps (documented: makes the space available to input_buffer)");
     kani::cover!(g.0 > 0 && plen > 0 && g.2 > g.1 && rlen > 0, "both regions moved");
     kani::cover!(g.0 > 0 && plen > 0 && g.2 > g.1 && rlen > 0 && plen + rlen > g.2, "raw region overlaps its destination");
     kani::cover!(g.0 == 0 && g.1 == g.2, "nothing to move");
@@ -120,8 +122,8 @@ fn c02_consume_discard() {
     kani::cover!(k > plen && plen > 0, "over-consumption is clamped");
     kani::cover!(k > 0 && k < plen, "partial consumption");
     p.discard_stream();
-    assert!(p.parsed_start == 0 && p.gap_start == 0 && p.raw_start == 0 && p.free_start == rlen, "discard must drop the stream buffer only");
-    if i < rlen { assert!(p.buffer[i] == buf[g.2 + i], "raw byte lost by discard_stream"); }
+    assert!(geo_ok(&p) && p.stream_buffer().is_empty() && p.free_start - p.raw_start == rlen, "discard must drop the stream buffer only");
+    if i < rlen { assert!(p.buffer[p.raw_start + i] == buf[g.2 + i], "raw byte lost by discard_stream"); }
     std::mem::forget(p);
 }
 
@@ -453,9 +455,9 @@ fn c18_set_stream() {
         kani::cover!(allowed && req == cur && plen > 0, "re-selecting the current stream keeps buffered data");
     } else {
         assert!(p.active_stream() == req, "accepted selection not stored");
-        assert!(p.stream_buffer().is_empty() && p.parsed_start == 0 && p.gap_start == 0, "stream buffer of the old stream must be emptied");
-        assert!(p.raw_start == 0 && p.free_start == rlen, "raw bytes must be preserved (count)");
-        if i < rlen { assert!(p.buffer[i] == buf[g.2 + i], "raw bytes must be preserved (content)"); }
+        assert!(geo_ok(&p) && p.stream_buffer().is_empty(), "stream buffer of the old stream must be emptied");
+        assert!(p.free_start - p.raw_start == rlen, "raw bytes must be preserved (count)");
+        if i < rlen { assert!(p.buffer[p.raw_start + i] == buf[g.2 + i], "raw bytes must be preserved (content)"); }
         if matches!(st0c, State::Stream) { assert!(matches!(p.state, State::Skip), "rest of the old stream's record must be skipped, not delivered"); }
         else { assert!(same_state(&p.state, &st0c)); }
         kani::cover!(matches!(st0c, State::Stream) && pr > 0 && plen > 0, "advance in the middle of a stream record with buffered data");
@@ -776,7 +778,8 @@ pub(crate) static mut GS_OUT_TOTAL: usize = 0;         // reply bytes produced s
 pub(crate) static mut GS_PARSE_CALLS: usize = 0;
 pub(crate) static mut GS_FED: usize = 0;               // transport bytes handed to parse() so far
 pub(crate) static mut GS_ERR_BUDGET: usize = 0;        // how many calls may fail
-pub(crate) static mut GS_END: bool = false;            // once the stream ended it stays ended (sticky end of stream)
+pub(crate) static mut GS_END: bool = false;
+pub(crate) static mut GS_ERRS: (usize, usize) = (0, 0);   // (aborts, fatal errors) the stub has returned so far            // once the stream ended it stays ended (sticky end of stream)
 
 pub(crate) fn parse_contract<'a>(p: &mut Parser<'a>, new_input: usize, dest: Option<&mut [u8]>) -> Result<Status, Error> where 'a: 'a {
     // documented preconditions (the real function asserts them)
@@ -788,7 +791,7 @@ pub(crate) fn parse_contract<'a>(p: &mut Parser<'a>, new_input: usize, dest: Opt
         p.free_start += new_input;
         if GS_ERR_BUDGET > 0 && kani::any() {
             GS_ERR_BUDGET -= 1;
-            return Err(if kani::any() { Error::AbortRequest } else { Error::UnknownVersion(9) });
+            return Err(if kani::any() { GS_ERRS.0 += 1; Error::AbortRequest } else { GS_ERRS.1 += 1; Error::UnknownVersion(9) });
         }
         // consume any amount of raw protocol data
         let rs: usize = kani::any();
